@@ -59,6 +59,23 @@ fn main() {
         tzmon::core::set_hang_limit_s(v);
     }
     install_panic_hook();
+    if property == "TAPE" {
+        // replay of a libFuzzer artifact of target `model`: the decision tape of one monitored case
+        let prop = ctx.opts.get("prop").cloned().unwrap_or_default();
+        let data = match std::fs::read(ctx.opts.get("file").cloned().unwrap_or_default()) {
+            Ok(d) => d,
+            Err(e) => {
+                eprintln!("cannot read the tape: {}", e);
+                std::process::exit(3);
+            }
+        };
+        let l = tzmon::fuzzcase::run(&prop, &data);
+        println!("tape of {} octets for {}: {} evaluations, {} violations", data.len(), prop, l.evaluations, l.violations.len());
+        for v in &l.violations {
+            println!("  {}\n    input:    {}\n    expected: {}\n    observed: {}", v.what, v.input, v.expected, v.observed);
+        }
+        return;
+    }
     let t0 = Instant::now();
     let rep = match tzmon::mon::run(&property, &ctx) {
         Some(r) => r,
@@ -78,12 +95,5 @@ fn main() {
         }
         None => println!("{}", doc),
     }
-    eprintln!(
-        "tzmon {} {:?}: {} evaluations, {} violations, {:.1}s",
-        property,
-        ctx.tier,
-        rep.merged.evaluations,
-        rep.merged.violations_total,
-        wall
-    );
+    eprintln!("tzmon {} {:?}: {} evaluations, {} violations, {:.1}s", property, ctx.tier, rep.merged.evaluations, rep.merged.violations_total, wall);
 }
